@@ -6,6 +6,8 @@ use crate::{
 };
 
 use super::{prelude::*, read_result::BlobRecordTimestamp};
+#[cfg(pearl_verif)]
+use crate::verif::{ASRwLock, RwLock};
 use bytes::Bytes;
 use futures::stream::FuturesOrdered;
 use tokio::fs::{create_dir, create_dir_all};
@@ -865,12 +867,20 @@ where
             debug!("{} dir exists", path.display());
         } else {
             debug!("creating dir for corrupted files: {}", path.display());
+            #[cfg(pearl_verif)]
+            if let Some(e) = crate::verif::io::tap_simple(&corrupted_dir_path, crate::verif::IoOp::CreateDir) {
+                return Err(e).context("failed to create dir for corrupted files");
+            }
             create_dir(corrupted_dir_path).await.with_context(|| {
                 format!(
                     "failed to create dir for corrupted files: {}",
                     path.display()
                 )
             })?;
+        }
+        #[cfg(pearl_verif)]
+        if let Some(e) = crate::verif::io::tap_simple(path, crate::verif::IoOp::Rename { to: corrupted_path.clone() }) {
+            return Err(e).context("failed to move file");
         }
         tokio::fs::rename(&path, &corrupted_path)
             .await
@@ -887,6 +897,10 @@ where
     async fn remove_index_by_blob_path(path: &Path) -> Result<()> {
         let index_path = path.with_extension(blob::BLOB_INDEX_FILE_EXTENSION);
         if index_path.exists() {
+            #[cfg(pearl_verif)]
+            if let Some(e) = crate::verif::io::tap_simple(&index_path, crate::verif::IoOp::Remove) {
+                return Err(e).context("failed to remove file");
+            }
             tokio::fs::remove_file(&index_path)
                 .await
                 .with_context(|| anyhow!(format!("failed to remove file {:?}", index_path)))?;
